@@ -122,6 +122,7 @@ Definition o_uses (k : K) (o : op) : bool :=
   | OWithdraw _ _ => K_eqb k KWd
   | ORun s => s_uses k s
   | ORouterLoan _ _ _ s => K_eqb k KSwap || s_uses k s
+  | ORouterLoanF _ _ _ s _ => K_eqb k KSwap || s_uses k s
   | OUpdate _ _ _ => true                     (* config updates are the switches themselves *)
   | _ => false
   end.
